@@ -308,6 +308,26 @@ pub fn run_history_property<H: HB>(prop: &'static str, tier: Tier) -> Outcome {
             return out;
         }
     }
+    if prop == "C04" {
+        // deserialisation is part of the safe public API too: every pair sequence of <= 3 pairs
+        // (repeats included) through the three serde channels must not panic (see C15 for the contents)
+        let t0 = Instant::now();
+        let keys: Vec<u32> = (0..3).collect();
+        let seqs: Vec<Vec<Pair>> = pair_seqs(&keys, &[0, 1, 2], 3).into_iter().map(|s| s.into_iter().map(|(k, _, p)| (k, 0, p)).collect()).collect();
+        let acfg = base_cfg(prop, 3, &[0, 1, 2], A_PUSH | A_POP | A_REMOVE);
+        let (cases, viol) = crate::post::par_each(seqs.len() * 2, threads(), |i| {
+            let d = i % 2 == 1;
+            let s = &seqs[i / 2];
+            let mk_case = |e: String| Case { prop: prop.into(), hasher: H::NAME.into(), double: d, root: Root::FromVec(s.clone()), ops: vec![], last: None, probe: Some("serde-arbitrary-input".into()), detail: e, universe: vec![0, 1, 2], aux: None, trail: vec![], params: vec![] };
+            crate::crash::set_case(|| mk_case(String::new()));
+            let r = if d { crate::c15::arbitrary_input::<DPQ<H>>(s, &acfg) } else { crate::c15::arbitrary_input::<PQ<H>>(s, &acfg) };
+            r.map_err(mk_case)
+        });
+        absorb_post(&mut out, "deserialising every pair sequence of <= 3 pairs (repeats included), 3 channels, both kinds: no panic", cases, viol, t0, json!({"sequences": seqs.len()}));
+        if !out.violations.is_empty() {
+            return out;
+        }
+    }
     if matches!(prop, "C01" | "C02" | "C04") {
         // extreme values: same closure over {MIN, 0, MAX}
         let mut cfg2 = base_cfg(prop, if q { 2 } else { 3 }, &EXTREMES, alpha & !(A_RETAIN_MUT));
